@@ -40,7 +40,9 @@ static inline uint64_t vh_fnv(const void* p, size_t n, uint64_t h = 146959810393
 // a 62-bit digest as two 31-bit integers
 static inline void vh_h(const char* k, uint64_t h) { fprintf(vh_out, "\"%s\":[%u,%u]", k, (unsigned)(h & 0x7fffffff), (unsigned)((h >> 31) & 0x7fffffff)); }
 static inline void vh_terminate() { fflush(vh_out); fprintf(stderr, "vh: terminate called\n"); _exit(3); }
-static inline void vh_init() { std::set_terminate(vh_terminate); setvbuf(stdout, NULL, _IOFBF, 1 << 20); }
+#include <csignal>
+static inline void vh_on_abort(int) { fflush(vh_out); fflush(stdout); _exit(134); }       // keep what was observed before an assertion of the library fired
+static inline void vh_init() { std::set_terminate(vh_terminate); setvbuf(stdout, NULL, _IOFBF, 1 << 20); signal(SIGABRT, vh_on_abort); }
 static inline long vh_arg(int argc, char** argv, const char* name, long dflt) {
     for (int i = 1; i + 1 < argc; i++) if (!strcmp(argv[i], name)) return atol(argv[i + 1]);
     return dflt;
